@@ -234,6 +234,15 @@ def late_features(spec, feat):
     main random stream (and with it every case generated so far) is unchanged"""
     import random
     r2 = random.Random(json.dumps(spec, sort_keys=True, default=str))
+    if feat.get("bounds"):
+        # a bound series with as many stamps as the variable's grid and the same first and last stamp, but
+        # other stamps in between: it is interpolated, not copied
+        for v, b in spec.get("bounds", {}).items():
+            vt = [F(t) for t in spec.get("var_times", {}).get(v, spec["times"])]
+            for side in b:
+                if isinstance(side, dict) and "times" in side and len(side["times"]) == len(vt) >= 3 and \
+                        F(side["times"][0]) == vt[0] and F(side["times"][-1]) == vt[-1] and r2.random() < 0.6:
+                    side["times"] = [str(vt[0])] + [str(vt[i] + (vt[i + 1] - vt[i]) * F(r2.randint(1, 3), 4)) for i in range(1, len(vt) - 1)] + [str(vt[-1])]
     pars = spec.get("parameters", [])
     if feat.get("retranscribe") and pars and r2.random() < 0.5:
         # parameters declared dynamic: the problem is transcribed once with other values, then again with
